@@ -8,12 +8,29 @@ import (
 	"google.golang.org/grpc/codes"
 )
 
+const whatBlocked = "a read or existence check blocked although a healthy replica holds the object"
+
 // oracle states property C11 on what the recording replicas saw during one
 // operation: contents before and after, the calls made and which of them were
 // made to fail. It does not use the model.
 func (s *sutA) oracle(w []string, res opResult, roundsBefore int) (string, string) {
 	if res.panicked != "" {
 		return "operation on the mirrored pair panicked", res.panicked
+	}
+	if res.stuck {
+		return whatBlocked, fmt.Sprintf("%v did not return within %v", w, hardLimit)
+	}
+	if res.isErr && res.err.code == codes.DeadlineExceeded {
+		scripted := false
+		for _, c := range res.calls {
+			if c.fault == codes.DeadlineExceeded {
+				scripted = true
+			}
+		}
+		if !scripted {
+			return whatBlocked, fmt.Sprintf("%v -> %s after %v: no replica call failed with that code, the operation waited for something that is never released; calls %+v",
+				w, res.reply, opDeadline, res.calls)
+		}
 	}
 	if s.A.waits+s.B.waits > 0 {
 		return "a stream handed out by a replica was never released", fmt.Sprintf("%v", w)
